@@ -5,6 +5,7 @@ import (
 	"crypto/cipher"
 	"fmt"
 	"math/rand/v2"
+	"runtime"
 	"sync"
 	"sync/atomic"
 
@@ -29,18 +30,17 @@ const (
 )
 
 type concOp struct {
-	op     int
-	nonce  []byte
-	in     []byte // plaintext (Seal) or presented ciphertext‖tag (Open)
-	ad     []byte
-	want   []byte // Seal: ct‖tag; valid Open: plaintext; tampered Open: nil (must fail)
-	class  string // length class / tamper class
-	what   string
-	msg    int
-	out    []byte
-	err    error
-	pv     any
-	inflit int32 // operations in flight (including this one) when it started
+	op    int
+	nonce []byte
+	in    []byte // plaintext (Seal) or presented ciphertext‖tag (Open)
+	ad    []byte
+	want  []byte // Seal: ct‖tag; valid Open: plaintext; tampered Open: nil (must fail)
+	class string // length class / tamper class
+	what  string
+	msg   int
+	out   []byte
+	err   error
+	pv    any
 }
 
 // barrier is a reusable rendezvous for n goroutines.
@@ -74,40 +74,37 @@ func (b *barrier) wait() {
 	b.mu.Unlock()
 }
 
-// runShared executes plans[g] on goroutine g against the one shared AEAD. The
-// goroutines meet at a barrier every `chunk` operations so that all of them are
-// inside the same stretch of work at the same time. Returns the number of
-// operations that started while at least one other was in flight.
-func runShared(a cipher.AEAD, plans [][]concOp, chunk int) (overlapping int64) {
+// runJobs executes plans[g] (a list of closures that perform one call each and
+// keep its result) on goroutine g. The goroutines meet at a barrier every
+// `chunk` jobs. With singleP the pass runs under runtime.GOMAXPROCS(1) and
+// every goroutine yields after each job: all goroutines then share one P (and
+// its sync.Pool shard) and interleave call by call. Returns the number of jobs
+// that started while at least one other was in flight. A panic escaping a job
+// is the job's own business (jobs recover what they expect).
+func runJobs(plans [][]func(), chunk int, singleP bool) (overlapping int64) {
+	if singleP {
+		prev := runtime.GOMAXPROCS(1)
+		defer runtime.GOMAXPROCS(prev)
+	}
 	var inflight atomic.Int32
 	var overlapped atomic.Int64
 	bar := newBarrier(len(plans))
 	var wg sync.WaitGroup
 	for g := range plans {
 		wg.Add(1)
-		go func(ops []concOp) {
+		go func(jobs []func()) {
 			defer wg.Done()
-			for j := range ops {
+			for j, job := range jobs {
 				if j%chunk == 0 {
 					bar.wait()
 				}
-				o := &ops[j]
-				func() {
-					o.inflit = inflight.Add(1)
-					defer inflight.Add(-1)
-					defer func() {
-						if v := recover(); v != nil {
-							o.pv = v
-						}
-					}()
-					if o.op == concSeal {
-						o.out = a.Seal(nil, o.nonce, o.in, o.ad)
-					} else {
-						o.out, o.err = a.Open(nil, o.nonce, o.in, o.ad)
-					}
-				}()
-				if o.inflit >= 2 {
+				if inflight.Add(1) >= 2 {
 					overlapped.Add(1)
+				}
+				job()
+				inflight.Add(-1)
+				if singleP {
+					runtime.Gosched()
 				}
 			}
 		}(plans[g])
@@ -115,6 +112,45 @@ func runShared(a cipher.AEAD, plans [][]concOp, chunk int) (overlapping int64) {
 	wg.Wait()
 	return overlapped.Load()
 }
+
+// runShared executes plans[g] on goroutine g against aeads[g%len(aeads)]: one
+// element = one value shared by all goroutines, one element per goroutine =
+// distinct values used at the same time.
+func runShared(aeads []cipher.AEAD, plans [][]concOp, chunk int, singleP bool) int64 {
+	jobs := make([][]func(), len(plans))
+	for g := range plans {
+		a := aeads[g%len(aeads)]
+		for j := range plans[g] {
+			o := &plans[g][j]
+			jobs[g] = append(jobs[g], func() {
+				defer func() {
+					if v := recover(); v != nil {
+						o.pv = v
+					}
+				}()
+				if o.op == concSeal {
+					o.out = a.Seal(nil, o.nonce, o.in, o.ad)
+				} else {
+					o.out, o.err = a.Open(nil, o.nonce, o.in, o.ad)
+				}
+			})
+		}
+	}
+	return runJobs(jobs, chunk, singleP)
+}
+
+// concScale shrinks the streams in the -race build (the detector costs 5-15x).
+func concScale(n int) int {
+	if mon.RaceBuild {
+		return n / 10
+	}
+	return n
+}
+
+var concPasses = []struct {
+	name    string
+	singleP bool
+}{{"parallel", false}, {"gomaxprocs1", true}}
 
 var concLens = []int{0, 1, 8, 16, 17, 31, 32, 33, 63, 64, 65, 100, 129, 193, 321, 513, 1024}
 
@@ -146,7 +182,7 @@ func pickConcLen(r *rand.Rand) int {
 func concWitness(kind int, path string, key []byte, g int, o *concOp) map[string]any {
 	w := map[string]any{"stream": "shared-aead-concurrent", "kind": kindName(kind), "path": path, "goroutine": g, "class": o.class, "modification": o.what,
 		"key": mon.FullHex(key), "nonce": mon.FullHex(o.nonce), "ad": mon.FullHex(o.ad), "input": mon.FullHex(o.in), "want": mon.FullHex(o.want), "got": mon.FullHex(o.out),
-		"in_flight_at_start": o.inflit, "note": "interleaving-dependent: re-run the stream, a single replayed case need not reproduce"}
+		"note": "interleaving-dependent: re-run the stream, a single replayed case need not reproduce"}
 	if o.err != nil {
 		w["err"] = o.err.Error()
 	}
@@ -156,17 +192,28 @@ func concWitness(kind int, path string, key []byte, g int, o *concOp) map[string
 	return w
 }
 
-// c01Concurrent is C01's shared-AEAD stream: every goroutine alternates Seal of
-// its own message and Open of its own spec-sealed message.
+// c01Concurrent is C01's concurrency stream: every goroutine alternates Seal of
+// its own message and Open of its own spec-sealed message, on ONE AEAD value
+// shared by all goroutines ("shared") or on one value per goroutine used at the
+// same time ("distinct": hidden package-level state), in a parallel pass and in
+// a GOMAXPROCS(1) pass.
 func c01Concurrent(m *mon.M, ps []string) {
-	rounds := m.N(6, 24)
-	opsPerG := m.N(1200, 3000)
+	rounds := m.N(8, 24)
+	fullOps := m.N(1200, 3000)
+	opsPerG := concScale(fullOps)
 	m.Cases("shared-aead-concurrent", rounds, func(i int64, r *rand.Rand) {
 		kind := int(i) % 2
-		key := mon.Bytes(r, 32)
-		// the operation lists (with their spec results) are built once and run on every path
+		mode := []string{"shared", "distinct"}[int(i)/2%2]
+		keys := [][]byte{mon.Bytes(r, 32)}
+		if mode == "distinct" {
+			for g := 1; g < concGoroutines; g++ {
+				keys = append(keys, mon.Bytes(r, 32))
+			}
+		}
+		// the operation lists (with their spec results) are built once and run on every path and pass
 		master := make([][]concOp, concGoroutines)
 		for g := range master {
+			key := keys[g%len(keys)]
 			gr := rand.New(rand.NewPCG(r.Uint64(), uint64(g)))
 			for j := 0; j < opsPerG; j++ {
 				n := pickConcLen(gr)
@@ -182,40 +229,53 @@ func c01Concurrent(m *mon.M, ps []string) {
 			}
 		}
 		for _, path := range ps {
-			plans := make([][]concOp, concGoroutines)
-			for g := range plans {
-				plans[g] = append([]concOp(nil), master[g]...)
-			}
-			a := newAEAD(kind, key)
-			var overlapping int64
-			onPath(path, func() { overlapping = runShared(a, plans, 200) })
-			m.Count("concurrent_overlapping_ops", int(overlapping))
-			m.Count(path+"_concurrent_overlapping_ops", int(overlapping))
-			for g := range plans {
-				for j := range plans[g] {
-					o := &plans[g][j]
-					m.Eval()
-					m.Count(path+"_concurrent_ops:"+kindName(kind), 1)
-					m.Distinct(fmt.Sprintf("concurrent %s %s g=%d len=%s op=%d", path, kindName(kind), g, o.class, o.op))
-					switch {
-					case o.pv != nil:
-						m.Violation("concurrent-shared-aead:panic:"+kindName(kind), concWitness(kind, path, key, g, o))
-					case o.op == concSeal && !bytes.Equal(o.out, o.want):
-						m.Violation("concurrent-shared-aead:seal-mismatch:"+kindName(kind), concWitness(kind, path, key, g, o))
-					case o.op == concOpenValid && o.err != nil:
-						m.Violation("concurrent-shared-aead:open-rejected-valid:"+kindName(kind), concWitness(kind, path, key, g, o))
-					case o.op == concOpenValid && !bytes.Equal(o.out, o.want):
-						m.Violation("concurrent-shared-aead:open-mismatch:"+kindName(kind), concWitness(kind, path, key, g, o))
+			for _, pass := range concPasses {
+				plans := make([][]concOp, concGoroutines)
+				for g := range plans {
+					plans[g] = append([]concOp(nil), master[g]...)
+				}
+				var aeads []cipher.AEAD
+				for _, k := range keys {
+					aeads = append(aeads, newAEAD(kind, k))
+				}
+				var overlapping int64
+				onPath(path, func() { overlapping = runShared(aeads, plans, 200, pass.singleP) })
+				m.Count("concurrent_overlapping_ops:"+pass.name, int(overlapping))
+				if !pass.singleP {
+					m.Count(path+"_concurrent_overlapping_ops", int(overlapping))
+				}
+				for g := range plans {
+					key := keys[g%len(keys)]
+					for j := range plans[g] {
+						o := &plans[g][j]
+						m.Eval()
+						m.Count(path+"_concurrent_ops:"+kindName(kind), 1)
+						m.Count("concurrent_ops:"+mode+":"+pass.name, 1)
+						m.Distinct(fmt.Sprintf("concurrent %s %s %s %s g=%d len=%s op=%d", mode, pass.name, path, kindName(kind), g, o.class, o.op))
+						pfx := "concurrent-" + mode + "-aead:"
+						switch {
+						case o.pv != nil:
+							m.Violation(pfx+"panic:"+kindName(kind), concWitness(kind, path, key, g, o))
+						case o.op == concSeal && !bytes.Equal(o.out, o.want):
+							m.Violation(pfx+"seal-mismatch:"+kindName(kind), concWitness(kind, path, key, g, o))
+						case o.op == concOpenValid && o.err != nil:
+							m.Violation(pfx+"open-rejected-valid:"+kindName(kind), concWitness(kind, path, key, g, o))
+						case o.op == concOpenValid && !bytes.Equal(o.out, o.want):
+							m.Violation(pfx+"open-mismatch:"+kindName(kind), concWitness(kind, path, key, g, o))
+						}
 					}
 				}
 			}
 		}
 	})
 	for _, p := range []string{"asm", "generic", "purego"} {
-		m.Gate(p+"_concurrent_overlapping_ops", 1, "operations on the shared AEAD that started while another goroutine's operation was in flight, "+p+" path")
-		m.Gate(p+"_concurrent_ops:xchacha", rounds/2*concGoroutines*opsPerG, "Seal/Open operations on one shared XChaCha20-Poly1305 value, "+p+" path")
-		m.Gate(p+"_concurrent_ops:chacha", rounds/2*concGoroutines*opsPerG, "Seal/Open operations on one shared ChaCha20-Poly1305 value, "+p+" path")
+		m.Gate(p+"_concurrent_overlapping_ops", 1, "operations that started while another goroutine's operation on the AEAD value(s) was in flight (parallel pass), "+p+" path")
+		m.Gate(p+"_concurrent_ops:xchacha", rounds/2*concGoroutines*fullOps, "Seal/Open operations by 8 goroutines at once on XChaCha20-Poly1305 values, "+p+" path")
+		m.Gate(p+"_concurrent_ops:chacha", rounds/2*concGoroutines*fullOps, "Seal/Open operations by 8 goroutines at once on ChaCha20-Poly1305 values, "+p+" path")
 	}
+	m.Gate("concurrent_ops:shared:parallel", rounds/2*concGoroutines*fullOps, "operations on ONE shared AEAD value, parallel pass")
+	m.Gate("concurrent_ops:shared:gomaxprocs1", rounds/2*concGoroutines*fullOps, "operations on ONE shared AEAD value, GOMAXPROCS(1) pass")
+	m.Gate("concurrent_ops:distinct:parallel", rounds/2*concGoroutines*fullOps, "operations on one AEAD value per goroutine, parallel pass")
 }
 
 // c02Concurrent is C02's shared-AEAD stream: the goroutines work on a small
@@ -225,7 +285,8 @@ func c01Concurrent(m *mon.M, ps []string) {
 // Open of the same message on the same AEAD value.
 func c02Concurrent(m *mon.M, ps []string) {
 	rounds := m.N(8, 24)
-	opsPerG := m.N(4000, 8000)
+	fullOps := m.N(4000, 8000)
+	opsPerG := concScale(fullOps)
 	const pool = 1 // every goroutine works on the same message: valid and tampered Opens of it overlap
 	m.Cases("shared-aead-concurrent", rounds, func(i int64, r *rand.Rand) {
 		kind := int(i) % 2
@@ -273,35 +334,47 @@ func c02Concurrent(m *mon.M, ps []string) {
 					plans[g] = append(plans[g], o)
 				}
 			}
-			a := newAEAD(kind, key)
-			var overlapping int64
-			onPath(path, func() { overlapping = runShared(a, plans, 500) })
-			m.Count(path+"_concurrent_overlapping_ops", int(overlapping))
 			reported := false
-			for g := range plans {
-				for j := range plans[g] {
-					o := &plans[g][j]
-					m.Eval()
-					m.Distinct(fmt.Sprintf("concurrent %s %s g=%d %s msglen=%s", path, kindName(kind), g, o.class, concLenClass(len(msgs[o.msg].pt))))
-					switch {
-					case o.pv != nil:
-						m.Violation("concurrent-shared-aead:panic:"+kindName(kind), concWitness(kind, path, key, g, o))
-					case o.op == concOpenTampered:
-						m.Count(path+"_concurrent_tampered_opens:"+kindName(kind), 1)
-						if o.err == nil {
-							m.Violation("concurrent-shared-aead:open-accepted-forgery:"+kindName(kind), concWitness(kind, path, key, g, o))
+			for _, pass := range concPasses {
+				if pass.singleP { // same operations again, all goroutines on one P
+					for g := range plans {
+						for j := range plans[g] {
+							plans[g][j].out, plans[g][j].err, plans[g][j].pv = nil, nil, nil
 						}
-					default:
-						m.Count(path+"_concurrent_valid_opens:"+kindName(kind), 1)
-						if o.err != nil || !bytes.Equal(o.out, o.want) {
-							// acceptance of authentic input is C01's clause; here it only means the
-							// concurrent tamper experiment ran next to failing valid Opens
-							m.Count(path+"_concurrent_valid_open_failed:"+kindName(kind), 1)
-							if reported {
-								continue
+					}
+				}
+				a := newAEAD(kind, key)
+				var overlapping int64
+				onPath(path, func() { overlapping = runShared([]cipher.AEAD{a}, plans, 500, pass.singleP) })
+				m.Count("concurrent_overlapping_ops:"+pass.name, int(overlapping))
+				if !pass.singleP {
+					m.Count(path+"_concurrent_overlapping_ops", int(overlapping))
+				}
+				for g := range plans {
+					for j := range plans[g] {
+						o := &plans[g][j]
+						m.Eval()
+						m.Distinct(fmt.Sprintf("concurrent %s %s g=%d %s msglen=%s", path, kindName(kind), g, o.class, concLenClass(len(msgs[o.msg].pt))))
+						switch {
+						case o.pv != nil:
+							m.Violation("concurrent-shared-aead:panic:"+kindName(kind), concWitness(kind, path, key, g, o))
+						case o.op == concOpenTampered:
+							m.Count(path+"_concurrent_tampered_opens:"+kindName(kind), 1)
+							if o.err == nil {
+								m.Violation("concurrent-shared-aead:open-accepted-forgery:"+kindName(kind), concWitness(kind, path, key, g, o))
 							}
-							reported = true
-							m.Inconclusive(fmt.Sprintf("shared-aead-concurrent: a valid %s Open failed on %s while other goroutines used the same AEAD value (C01's clause; key=%s nonce=%s)", kindName(kind), path, mon.FullHex(key), mon.FullHex(o.nonce)))
+						default:
+							m.Count(path+"_concurrent_valid_opens:"+kindName(kind), 1)
+							if o.err != nil || !bytes.Equal(o.out, o.want) {
+								// acceptance of authentic input is C01's clause; here it only means the
+								// concurrent tamper experiment ran next to failing valid Opens
+								m.Count(path+"_concurrent_valid_open_failed:"+kindName(kind), 1)
+								if reported {
+									continue
+								}
+								reported = true
+								m.Inconclusive(fmt.Sprintf("shared-aead-concurrent: a valid %s Open failed on %s while other goroutines used the same AEAD value (C01's clause; key=%s nonce=%s)", kindName(kind), path, mon.FullHex(key), mon.FullHex(o.nonce)))
+							}
 						}
 					}
 				}
@@ -311,8 +384,8 @@ func c02Concurrent(m *mon.M, ps []string) {
 	for _, p := range []string{"asm", "generic", "purego"} {
 		m.Gate(p+"_concurrent_overlapping_ops", 1, "Opens on the shared AEAD that started while another goroutine's Open was in flight, "+p+" path")
 		for _, k := range []string{"chacha", "xchacha"} {
-			m.Gate(p+"_concurrent_tampered_opens:"+k, rounds/2*concGoroutines*opsPerG/3, "single-bit-tampered Opens on one shared "+k+" AEAD value next to valid Opens of the same message, "+p+" path")
-			m.Gate(p+"_concurrent_valid_opens:"+k, rounds/2*concGoroutines*opsPerG/5, "valid Opens on one shared "+k+" AEAD value, "+p+" path")
+			m.Gate(p+"_concurrent_tampered_opens:"+k, rounds/2*concGoroutines*fullOps/3, "single-bit-tampered Opens on one shared "+k+" AEAD value next to valid Opens of the same message, "+p+" path")
+			m.Gate(p+"_concurrent_valid_opens:"+k, rounds/2*concGoroutines*fullOps/5, "valid Opens on one shared "+k+" AEAD value, "+p+" path")
 		}
 	}
 }
